@@ -5,6 +5,7 @@ package main
 // callback - observed on Packager.Package; and the built nfpm binary's exit status, output and target path.
 
 import (
+	"github.com/goreleaser/nfpm/v2/files"
 	"encoding/hex"
 	"bytes"
 	"encoding/json"
@@ -253,6 +254,9 @@ func runC06Refs(w *caseWriter, id string, d c06Desc, st *c06Stats) {
 			w.line("rref %s %s %s %d %s", xs(r.kind), xs(r.get), xs(f), b2i(err == nil), xs(msg))
 			st.refs++
 			st.kinds[strings.SplitN(r.kind, ":", 2)[0]]++
+			if strings.HasSuffix(r.kind, ":tree") {
+				st.kinds["tree"]++
+			}
 		}
 	}
 	// the same reference, the same path, but the file is gone (or is a directory) by the time of THIS build, after
@@ -569,7 +573,15 @@ func cmdC06(tier string, seed int64, out, statsOut, replay string) {
 		if i%2 == 0 {
 			signedVariant(&gen.cfg)
 		}
-		// every kind of file reference is present in some configuration of every run, whatever the seed:
+		// every kind of file reference is present in some configuration of every run, whatever the seed: a tree,
+		// a glob, a plain file and a script in every first one,
+		if i%2 == 0 {
+			gen.cfg.Platform = ""
+			gen.cfg.Contents = append(gen.cfg.Contents,
+				&files.Content{Source: "src/k", Destination: fmt.Sprintf("/opt/refs%d/tree", i), Type: "tree"},
+				&files.Content{Source: "src/d/*", Destination: fmt.Sprintf("/opt/refs%d/glob/", i)},
+				&files.Content{Source: "src/f1", Destination: fmt.Sprintf("/opt/refs%d/f1", i)})
+		}
 		// a changelog in every second one (the generator sets one in a fifth of its configurations only)
 		if i%2 == 1 && gen.cfg.Changelog == "" {
 			gen.cfg.Changelog = "changelog.yaml"
@@ -586,6 +598,10 @@ func cmdC06(tier string, seed int64, out, statsOut, replay string) {
 		dispatch(fmt.Sprintf("cli-%d", i), c06Desc{Kind: "cli", YAML: marshalConfig(&gen.cfg), Files: gen.files})
 	}
 	w.close()
-	writeJSON(statsOut, map[string]any{"cases": st.cases, "write_faults_injected": st.faults, "fault_free_writes_by_format": st.writes, "reference_faults": st.refs,
+	floors := map[string][]int{}
+	for _, k := range []string{"changelog", "changelog-gone", "content", "content-gone", "key", "key-gone", "key-directory", "script", "script-gone", "script-directory", "tree"} {
+		floors["reference faults of kind "+k] = []int{st.kinds[k], 1}
+	}
+	writeJSON(statsOut, map[string]any{"floors": floors, "cases": st.cases, "write_faults_injected": st.faults, "fault_free_writes_by_format": st.writes, "reference_faults": st.refs,
 		"reference_kinds": st.kinds, "invalid_setting_runs": st.invalid, "cli_runs": st.cli, "distinct": len(st.distinct), "distinct_nontrivial": len(st.distinct), "samples": st.samples})
 }
